@@ -3,7 +3,7 @@ from __future__ import annotations
 
 import ast
 
-from sa.cfg import CFG, ReachingDefs
+from sa.cfg import edges_establishing, CFG, ReachingDefs
 from sa.dataflow import FnFlow
 from sa.model import Program, alpha, norm, walk_no_nested
 from sa.report import Results
@@ -241,6 +241,79 @@ def run(prog: Program) -> Results:
                         f"{f.key}: `{norm(c)[:80]}` renders the node's own {sorted({k for p, k in flat})} trivia with indent "
                         f"`{norm(arg) if arg is not None else 'default 0'}` instead of the node's `indent`: own-line comments that belong to "
                         f"the enclosing structure are shifted to another column")
+    # ---------------------------------------------------------------- R-C18-8
+    r8 = res.rule("R-C18-8", "a blank line inside a comment gap is represented once: the collector stores it as an empty_line marker "
+                  "in the comment list AND in the gap measured after the last comment, so wherever "
+                  "format_interstitial_trivia_with_separator is told not to drop the layout's blank-line flag "
+                  "(drop_blank_line_if_items=False) the caller has cleared it on every path where the list is non-empty", floor=8)
+
+    def clears(v: ast.AST) -> bool:
+        if isinstance(v, ast.Call) and isinstance(v.func, ast.Attribute) and v.func.attr == "model_copy":
+            for k in v.keywords:
+                if k.arg == "update" and isinstance(k.value, ast.Dict):
+                    for kk, vv in zip(k.value.keys, k.value.values):
+                        if isinstance(kk, ast.Constant) and kk.value == "blank_line" and isinstance(vv, ast.Constant) and vv.value is False:
+                            return True
+        return False
+
+    def helper_clears(f, call: ast.Call, items_text: str) -> bool:
+        """`helper(layout, has_comments=bool(items))` where helper returns a cleared copy under that flag"""
+        if not isinstance(call.func, ast.Name):
+            return False
+        g = f
+        h = None
+        while g is not None and h is None:
+            h = g.nested.get(call.func.id)
+            g = g.parent
+        if h is None:
+            return False
+        for st in ast.walk(h.node):
+            if isinstance(st, ast.If) and isinstance(st.test, ast.Name) and any(isinstance(x, ast.Return) and x.value is not None and clears(x.value) for x in st.body):
+                flag = st.test.id
+                arg = next((k.value for k in call.keywords if k.arg == flag), None)
+                if arg is None:
+                    params = [a.arg for a in h.node.args.posonlyargs + h.node.args.args]
+                    if flag in params and params.index(flag) < len(call.args):
+                        arg = call.args[params.index(flag)]
+                if arg is not None and norm(arg) in (items_text, f"bool({items_text})", f"len({items_text}) > 0"):
+                    return True
+        return False
+
+    for f in prog.all_functions():
+        calls = [c for c in walk_no_nested(f.node) if isinstance(c, ast.Call) and callee(c) == "format_interstitial_trivia_with_separator"]
+        if not calls:
+            continue
+        cfg = None
+        for c in calls:
+            flag = next((k.value for k in c.keywords if k.arg == "drop_blank_line_if_items"), None)
+            if flag is None or (isinstance(flag, ast.Constant) and flag.value is True):
+                continue
+            r8.instances += 1
+            items, layout = (c.args + [None, None])[:2]
+            items = items if items is not None else next((k.value for k in c.keywords if k.arg == "items"), None)
+            layout = layout if layout is not None else next((k.value for k in c.keywords if k.arg == "layout"), None)
+            if not isinstance(layout, ast.Name) or items is None or not (isinstance(flag, ast.Constant) and flag.value is False):
+                res.unclass(f"{f.key}: `{norm(c)[:60]}` — items/layout/flag arguments not in a recognised form")
+                continue
+            it, L = norm(items), layout.id
+            cfg = cfg or CFG(f.node)
+            node = cfg.containing(c)
+            clearing = []
+            for n in cfg.nodes:
+                a = n.ast
+                if isinstance(a, ast.Assign) and any(isinstance(t, ast.Name) and t.id == L for t in a.targets):
+                    if clears(a.value) or (isinstance(a.value, ast.Call) and helper_clears(f, a.value, it)):
+                        clearing.append(n)
+            empty = edges_establishing(cfg, lambda a, t, _it=it: (norm(a) == _it and t is False) or (norm(a) == f"not {_it}" and t is True))
+            # a clearing assignment counts only if it is itself reached under `items` non-empty or unconditionally (helper form)
+            ok = node is not None and bool(clearing) and cfg.all_paths_pass(node, cut_nodes=clearing, cut_edges=empty)
+            # later definitions that set blank_line from the markers themselves (`any(item is empty_line ...)`) re-derive it from
+            # the list: they are applied when the layout was not on a new line at all, i.e. the gap held no blank line
+            r8.ob(ok, {"site": f.key, "items": it, "layout": L, "cleared_by": [norm(n.ast)[:50] for n in clearing][:2]})
+            if not ok:
+                res.add("R-C18-8", (f.key, "blank-line flag kept although the comment list holds the blank line", it), f.loc(c),
+                        f"{f.key}: `{norm(c)[:70]}` keeps the blank-line flag of `{L}` while `{it}` may be non-empty and nothing cleared "
+                        f"it: a comment followed by a blank line in that gap is rendered with two blank lines")
     res.assumptions = ["`;`/`:` attachment and exactly-one-space between tokens are value-level facts not decided here"]
     return res
 
